@@ -28,7 +28,7 @@ class S(vlib.Spec):
         12: "a field lookup by name or id finds the wrong field",
         13: "a method / parent service lookup finds the wrong entry",
         14: "a Go type does not map to its own descriptor and back",
-        15: "the real code panicked",
+        15: "the real code panicked, or a generated package did not register the descriptor of its file",
         16: "a Filepath inside the descriptor is not the path of the file",
     }
     names = {2: "struct-descriptors", 3: "enum-descriptors", 4: "typedef-descriptors", 5: "service-descriptors",
